@@ -51,7 +51,16 @@ def run(ck, F):
     HEADERS = "!is_empty(soap_operation.headers)"
 
     def cond_headers(ctx):
-        return any(c[0] == "alt" and og.nf_str(c[1]) == HEADERS and c[2] is True for c in ctx)
+        """the context says "the operation has header parts": `!headers.is_empty()` taken, or `headers.is_empty()` not taken"""
+        for c in ctx:
+            if c[0] != "alt":
+                continue
+            cond, br = c[1], c[2]
+            while isinstance(cond, tuple) and cond[0] == "not":
+                cond, br = cond[1], not br
+            if og.nf_str(("not", cond)) == HEADERS and br is False:
+                return True
+        return False
 
     # ---- R1
     attrs = [C03.parse_attr(e) for e in env.pre if "#[yaserde(" in e.skeleton()]
